@@ -334,8 +334,16 @@ def run (s : S) : List Act → Option S
 /-- reachable from a fresh queue of `size` shards -/
 def Reachable (size : Nat) (s : S) : Prop := ∃ acts, run (init size) acts = some s
 
+/-- an Add call, the loop worker or a tail worker (everything but the environment and Close calls) -/
+def Act.isQueue : Act → Bool
+  | .adder _ | .wk _ _ | .tail _ => true
+  | _ => false
+
 /-- no actor of the queue can move (new calls and the connection dying are the environment's) -/
 def Quiescent (s : S) : Prop := ∀ a, a.isEnv = false → step s a = none
+
+/-- no Add call and no worker can move (Close calls may still be polling) -/
+def QuiescentQ (s : S) : Prop := ∀ a, a.isQueue = true → step s a = none
 
 /-- in-contract executions: at least one shard, every Add carries a getter, fewer than 2³¹ Adds -/
 def InContract (s : S) : Prop := 0 < s.size ∧ s.emptyAdds = 0 ∧ s.idx < 2147483648
